@@ -450,6 +450,9 @@ class Ops(object):
                     if it.truth(self.compare(it, 'Eq', k, key)):
                         obj[k] = v
                         return
+                if isinstance(key, SObj):
+                    obj[key] = v          # an object key unequal to every present key (A-bi-dict: hash/eq lookup)
+                    return
                 raise OutOfSubset('symbolic key stored into concrete dict')
             obj[key] = v
             return
@@ -501,7 +504,7 @@ class Ops(object):
             return list(v)
         if isinstance(v, dict):
             return list(v.keys())
-        if isinstance(v, (range, str)):
+        if isinstance(v, (range, str)) or type(v).__name__ in ('dict_keys', 'dict_values', 'dict_items'):
             return list(v)
         if isinstance(v, (set, frozenset)):
             if has_sym(v):
@@ -606,6 +609,8 @@ class Ops(object):
                   'MatMult': 'matmul'}
 
     def binop(self, it, op, a, b, inplace=False):
+        if op == 'Mod' and isinstance(a, str) and has_sym(b):
+            return '<formatted message>'       # str % args: text of messages is not modelled (A-py-format: never raises for %s/%r)
         # user-defined operator methods (A-disp: left operand first, reflected on NotImplemented)
         if isinstance(a, SObj) or isinstance(b, SObj):
             d = self.BIN_DUNDER[op]
@@ -850,7 +855,8 @@ class Ops(object):
                     return x in container
                 except TypeError:
                     it.raise_('TypeError', 'unhashable')
-            for e in container:
+            elems = self.iter_view(it, container) if isinstance(container, (set, frozenset)) else list(container)
+            for e in elems:          # deterministic order (sets of objects hash by address)
                 if it.truth(self.compare(it, 'Eq', e, x)):
                     return True
             return False
